@@ -222,8 +222,8 @@ def cases_pairs(quick):
     srcs = [s for s in SOURCE_ORDER if s != 'ERROR73']
     for a in srcs:
         for b in srcs:
-            for ctx in (['main', 'gosub1'] if quick else ['main', 'gosub1', 'forline', 'direct']):
-                for h in (['next', 'retry'] if quick else ['next', 'retry', 'line', 'if', 'multi']):
+            for ctx in (['main', 'gosub1'] if quick else CONTEXTS):
+                for h in (['next', 'retry'] if quick else HANDLERS):
                     out.append((a, 'middle', ctx, h, 'armed', b))
     return out
 
